@@ -547,7 +547,7 @@ def n_envelope(ch, root):
         n = ch.choose("n", [1, 0, 2, 3])
         pl = {}
         for i in range(n):
-            name = ch.choose(f"name{i}", [f"#file{i}.bin", f"cache://c{i}", "x" * (24 + i), "é" + str(i), str(i)])
+            name = ch.choose(f"name{i}", [f"#file{i}.bin", f"cache://c{i}", "x" * (24 + i), "é" + str(i), str(i), ["true", "null", "[]"][i], ["1.5", "-1", "{}"][i], f"a,b {i}=c"])
             form = ch.choose(f"form{i}", ["hex", "path", "inline-envelope", "empty"])
             if form == "hex":
                 pl[name] = hexs(ch.choose(f"len{i}", [4, 1, 23, 24, 255, 256, 65535, 65536]), i)
